@@ -5,7 +5,7 @@ open Lean
 def handleAll (j : Json) : Json :=
   match Driver.getStr j "op" with
   | .ok o =>
-    if o.startsWith "rv." then Driver.Rv.handle j
+    if o.startsWith "rv." || o.startsWith "flags." then Driver.Rv.handle j
     else Driver.jerr s!"unknown op {o}"
   | .error e => Driver.jerr e
 
